@@ -77,7 +77,7 @@ def closure_axioms(formulas):
 
 
 _PYEQ_CACHE = {}
-TRANSFER = {"list_len", "list_get", "list_index", "list_contains", "list_count", "list_idx_ok", "dict_has", "dict_get", "dict_len", "sub_of"}
+TRANSFER = {"list_len", "list_get", "list_index", "list_contains", "list_count", "list_index_in", "list_contains_in", "list_idx_ok", "dict_has", "dict_get", "dict_len", "sub_of"}
 
 
 def _pyeq_pairs_and_reads(f):
@@ -583,6 +583,17 @@ def _axioms_of(f):
             v = smt.F("unpack2_1", Val, Val)(pair)
             ax.append(z3.Implies(bs.dict_len(c) > 0, z3.And(bs.dict_has(c, k), bs.dict_get(c, k) == v,
                                                            bs.dict_popitem_rest(c) == bs.dict_del(c, k))))
+        if nm in ("list_index_in", "list_contains_in"):
+            # [SPEC-BUILTIN] a hit of list.index(x, start, stop) lies inside the (normalised) bounds and is / == x
+            V_, x_, lo_, hi_ = args
+            r_ = bs.list_index_in(V_, x_, lo_, hi_)
+            ax.append(z3.Implies(bs.list_contains_in(V_, x_, lo_, hi_),
+                                 z3.And(r_ >= 0, r_ >= Val.i(lo_), r_ < Val.i(hi_), r_ < bs.list_len(V_),
+                                        smt.pyeq(bs.list_get(V_, smt.VInt(r_)), x_))))
+            # ... and over the whole list it is list.index(x) / `x in list`
+            c_ = bs.list_contains_in(V_, x_, lo_, hi_)
+            ax.append(z3.Implies(z3.And(Val.i(lo_) <= 0, Val.i(hi_) >= bs.list_len(V_)),
+                                 z3.And(c_ == bs.list_contains(V_, x_), z3.Implies(c_, r_ == bs.list_index(V_, x_)))))
         if nm in ops or nm in PREDS:
             if all(a.sort() == Val for a in args):
                 fc = smt.F(nm + "#c", *([Val] * len(args)), e.sort())
@@ -800,7 +811,7 @@ ABC_EDGES = [("Mapping", "Collection"), ("Sequence", "Collection"), ("MutableMap
              ("bool", "int")]
 
 PREDS = {"dict_has", "list_idx_ok", "list_set_ok", "list_del_ok", "list_contains", "list_pop_ok",
-         "list_lt", "list_le", "list_gt", "list_ge", "dict_len", "list_len", "list_set_exc", "list_index", "list_count"}
+         "list_lt", "list_le", "list_gt", "list_ge", "dict_len", "list_len", "list_set_exc", "list_index", "list_count", "list_index_in", "list_contains_in"}
 
 BUILTIN_TYPES = {
     # concrete built-in type -> abstract / base types it is an instance of  [E-ABC]
